@@ -294,7 +294,7 @@ class SynGen:
 			return self.name()
 		if x < 0.8:
 			self.f.add('target:attr')
-			return r.choice(['self', 'obj', 'a', 'x.y']) + '.' + r.choice(ATTRS)
+			return r.choice(['self', 'self', 'obj', 'a', 'x.y', 'self.' + r.choice(ATTRS), 'self.' + r.choice(ATTRS) + '.' + r.choice(ATTRS)]) + '.' + r.choice(ATTRS)
 		self.f.add('target:index')
 		return r.choice(NAMES) + '[' + self.expr(d - 1) + ']'
 
@@ -456,6 +456,9 @@ class SynGen:
 			deco_extra = ['classmethod']
 		elif kind == 'init':
 			method = 'method'
+		elif kind == 'plain':
+			# a def directly in a class body without self / cls (static-style)
+			method = None
 		self.f.add('def:' + (kind or ('closure' if level > 0 else 'function')))
 		ret = 'None' if kind == 'init' else self.typed()
 		head = f'def {name}({self.params(d, method)}) -> {ret}:'
@@ -502,13 +505,13 @@ class SynGen:
 				force_as = e.startswith('(') and not self.o.get('with_paren_tuple', False)
 				items.append(e + (' as ' + self.name() if force_as or r.random() < 0.6 else ''))
 			return self.suite('with ' + ', '.join(items) + ':', d, level, in_func, in_loop)
-		if x < 0.96:
+		if x < 0.955 and not (in_func and not in_class and x >= 0.93):
 			kind = None
 			if in_class:
-				kind = r.choice(['method', 'method', 'classmethod', 'init'])
+				kind = r.choice(['method', 'method', 'classmethod', 'init', 'init', 'plain'])
 			return self.function(d, level, kind)
 		if self.o['class']:
-			self.f.add('stmt:class')
+			self.f.add('stmt:class' + (':in-function' if in_func else ''))
 			bases = r.sample(CLASSES, r.choice([0, 0, 1, 2]))
 			head = 'class ' + r.choice(CLASSES[:6]) + ('(' + ', '.join(bases) + ')' if bases or r.random() < 0.1 else '') + ':'
 			return self.decorators(level) + self.suite(head, d, level, False, False, in_class=True)
